@@ -15,4 +15,7 @@ def run(rep, fb, tier):
     lints.rule_virtual_depths(rep, fb)
     pyrules.rule_py_delegation(rep, "partition.py", "PartitionedArray", floor=25)
     pyrules.rule_py_dispatch(rep, modules=["partition.py", "_util.py", "operations/structure.py"], floor=20)
+    from ..rules import pybind as _pb, pyrules as _pr2
+    _pb.rule_py_bindings(rep)
+    _pr2.rule_py_call_signature(rep)
     rep.units = fb.units + ["src/awkward/partition.py, _util.py, operations/structure.py (ast)"]
